@@ -267,6 +267,7 @@ def run_shard(spec, tier):
         vs, obs = check(case, real_bls_sign=(i == 0 and curve == 'tz4' and first in ('tx_tz', 'reveal')))
         if 'bls_sign' in obs:
             r.out(obs['bls_sign'])
+            r.extra[obs['bls_sign']] += 1
         if nontrivial(case):
             r.nt(tuple(sorted((k, repr(v)) for k, v in case.items())))
         n = len(case['kinds'])
